@@ -1,5 +1,11 @@
 # Registered checks: property id -> harness files, entries, bounds.  See DESIGN.md section 3.
 SPECS = {
+ "C10": {
+  "explanation": "K: FormatVersion operators with six/nine symbolic 32-bit ints (complete over all 2^96 pairs). S: real File::open -> FileHDF5::FileHDF5 -> checkHeader on the HDF5 model; the file's header (format string, version triple, id) is symbolic.",
+  "bounds": {"version_components": "full 32-bit range, symbolic", "modes": ["ReadOnly", "ReadWrite"], "force": [False, True], "format": ["nix", "other", "missing"], "version/id attribute": "present or missing"},
+  "outside": ["bytes on disk (libhdf5)", "files whose version attribute is not a 3-vector of ints"],
+  "assumptions": ["libhdf5 replaced by h5model (validated against nix's 62 test executables)", "exception message formatting (iostream) inert"],
+  "harnesses": [{"file": "C10_version.cpp", "entries": [{"entry": "vh_c10_order"}, {"entry": "vh_c10_index"}, {"entry": "vh_c10_gate"}]}]},
  "C07": {
   "explanation": "Kernel tier: the four index kernels of src/Dimensions.cpp are called directly with symbolic position, tick values, counts and match rule; the oracle is the documented rule stated against the axis (neighbours of the answer).",
   "bounds": {"quick": {"range_ticks": "0..3 symbolic strictly ascending doubles, any non-NaN position", "set_labels": "0..3", "df_rows": "1..2^40 symbolic", "positions_set_df": "|p| < 1e15",
